@@ -11,7 +11,7 @@ ASSUMPTIONS = [
     "theorems are about Model.Tools.intersect/intersect_all (+ diff, merge for the migration); tie to cmd/bkli, cmd/bkld and bkl is this run's differential comparison of the binaries",
     "domain: map-rooted, null-free, $-free trees",
 ]
-RULE = ("sets of 2-4 trees derived from a common ancestor by arbitrary edits (incl. list reordering/duplication and kind changes), and unrelated "
+RULE = ("sets of 2-4 trees derived from a common ancestor by arbitrary edits (incl. list reordering/duplication, kind changes and print-alike scalars of another kind), and unrelated "
         "trees, in random argument order and mixed formats; real bkli compared with the model's fold; implementation-only oracles: bkli x x = x, "
         "every non-marker leaf of the result occurs at the same map path in every input, and for each input bkl(base + bkld(base, input)) = input; "
         "non-trivial = inputs are pairwise different; distinct by hash")
